@@ -109,6 +109,16 @@ func TestVerif_C11_WhipIngest(t *testing.T) {
 			}
 			return n
 		}
+		// a member that is told about streams
+		witness := &loginClient{id: "witness-" + tag}
+		wg, err := group.AddClient(g, witness, group.ClientCredentials{Username: sp8("witness"), Password: "x"})
+		if err != nil {
+			t.Fatalf("VERIF-HARNESS-ERROR: the witness could not join: %v", err)
+		}
+		witness.mu.Lock()
+		witness.g = wg
+		witness.mu.Unlock()
+		defer group.DelClient(witness)
 		var log []string
 		nt := false
 		nsess := rapid.IntRange(1, 3).Draw(t, "sessions")
@@ -128,6 +138,10 @@ func TestVerif_C11_WhipIngest(t *testing.T) {
 			}
 			grants := cred == "present" || cred == "present2" || (cred == "none" && anonPresent)
 			before := whipMembers()
+			if !grants {
+				waitPushTimers() // announcements of earlier, accepted sessions
+			}
+			told := witness.announcements()
 			resp, err := rig.raw("POST", "/group/"+g+"/.whip", hdr, []byte(offer))
 			if err != nil {
 				t.Fatalf("C12: WHIP POST: no HTTP response: %v", err)
@@ -145,6 +159,11 @@ func TestVerif_C11_WhipIngest(t *testing.T) {
 				if resp.Status == 201 || after != before {
 					t.Fatalf("C11: WHIP ingest with credentials that do not grant 'present' for this group (%s, anonymous may present=%v): status %d, WHIP members %d -> %d",
 						cred, anonPresent, resp.Status, before, after)
+				}
+				// nothing is published on behalf of a refused ingest (stream announcements are delayed by a timer)
+				waitPushTimers()
+				if n := witness.announcements(); n != told {
+					t.Fatalf("C11: WHIP ingest with credentials that do not grant 'present' (%s) was refused (%d), but a stream was announced to the group's members on its behalf", cred, resp.Status)
 				}
 				if cred != "none" && cred != "unknown" {
 					nt = true
